@@ -252,13 +252,42 @@ def mapNeuronlist {β} (cfg : MapCfg) (n nargs : Nat) (kwargs : List (String × 
 
 /-! ### `map_neuronlist_df` (functions returning one DataFrame per neuron, e.g. `segment_analysis`)
 
+As written since fix 88dbed7 (`NeuronProcessor.__call__` records `self.failed` before dropping the failed runs):
+
     res = proc(nl, *args, **kwargs)                 # failed runs already filtered out
-    for n, df in zip(nl, res): df.insert(0, column=id_col, value=n.id)
+    ok = [n for n, failed in zip(nl, proc.failed) if not failed]
+    for n, df in zip(ok, res): df.insert(0, column=id_col, value=n.id)
     df = pd.concat(res, axis=0)                                                        -/
+
+/-- `proc.failed`: one flag per run. -/
+def failedFlags {γ} (runs : List (Res γ)) : List Bool := runs.map Option.isNone
+
+/-- `[n for n, failed in zip(nl, proc.failed) if not failed]`. -/
+def survivors {ν} (nl : List ν) (failed : List Bool) : List ν :=
+  (nl.zip failed).filterMap fun p => if p.2 then none else some p.1
 
 /-- The labelled frames: `(neuron whose id is written into the frame, frame)`; `none` = raises
 (a failing run without `omit_failures`, or `pd.concat([])` when no frame is left). -/
 def mapDfW {ν γ} (f : ν → Res γ) (nl : List ν) (omitF : Bool) : Option (List (ν × γ)) :=
+  (collect (nl.map f) omitF).bind fun res =>
+    if res.isEmpty then none else some ((survivors nl (failedFlags (nl.map f))).zip res)
+
+/-- HISTORICAL (before fix 88dbed7): the frames were zipped with the *unfiltered* list, `zip(nl, res)`.
+Kept only as a witness of the repaired defect and as the meaning of a reverted source. -/
+def mapDfPreFix {ν γ} (f : ν → Res γ) (nl : List ν) (omitF : Bool) : Option (List (ν × γ)) :=
   (collect (nl.map f) omitF).bind fun res => if res.isEmpty then none else some (nl.zip res)
+
+/-- What the translator reads off `map_neuronlist_df` / `NeuronProcessor.__call__`. -/
+structure DfFacts where
+  zipPartner : String          -- "survivors" | "list" : what the result frames are zipped with
+  survivorsFilterNotFailed : Bool   -- the comprehension keeps `n` when `not failed`, over `zip(<list>, proc.failed)`
+  procRecordsFailed : Bool     -- `self.failed = <FailedRun flags of the unfiltered results>` before they are dropped
+  labelsWithOwnId : Bool       -- `df.insert(0, column=id_col, value=n.id)` for the zipped `n`
+deriving Repr, DecidableEq
+
+/-- `map_neuronlist_df` as the extracted facts say it labels. -/
+def mapDfOf {ν γ} (d : DfFacts) (f : ν → Res γ) (nl : List ν) (omitF : Bool) : Option (List (ν × γ)) :=
+  if d.zipPartner == "survivors" && d.survivorsFilterNotFailed && d.procRecordsFailed && d.labelsWithOwnId
+  then mapDfW f nl omitF else mapDfPreFix f nl omitF
 
 end Navis.Zip
